@@ -43,13 +43,13 @@ Proof.
   destruct V as [-> | [-> | [-> | ->]]]; (do 8 (destruct b as [|b]; [reflexivity|])); lia.
 Qed.
 
-(* 32-bit mode: a 16-bit value zero-extended into a 32-bit register (pextrw eax, xmm0, 0) zeroes byte 2, which the reported
-   masks (write 0x3, extend 0) do not contain. *)
-Lemma gp_bytes_x86_partial_refuted :
-  exists old val b, (b < 8)%nat /\ ~ gp_byte_spec false D32 2 old val b.
+(* 32-bit mode (with fixes/C12-gp-partial-write-masks.patch; refuted before it): a 1..4-byte value zero-extended into a 32-bit register *)
+Lemma gp_bytes_exact_zx32 vw old val b :
+  (1 <= vw <= 4)%nat -> (b < 8)%nat -> gp_byte_spec false D32 vw old val b.
 Proof.
-  exists [1;1;1;1;1;1;1;1], [2;2;2;2;2;2;2;2], 2%nat. split; [lia|].
-  unfold gp_byte_spec. vm_compute. discriminate.
+  intros Hv Hb. unfold gp_byte_spec.
+  assert (V : vw = 1%nat \/ vw = 2%nat \/ vw = 3%nat \/ vw = 4%nat) by lia.
+  destruct V as [-> | [-> | [-> | ->]]]; (do 8 (destruct b as [|b]; [reflexivity|])); lia.
 Qed.
 
 (* ---------------------------------------------------------------- vector registers *)
